@@ -30,6 +30,8 @@ type bbDelivery struct {
 	desc   string
 	voted  bool // Vote returned true
 	called bool
+
+	hostile bool // the ballot carries a voteproof the box has to refuse: an error from Vote is a legitimate answer
 }
 
 type bbWorld struct {
@@ -41,6 +43,19 @@ type bbWorld struct {
 	avp32   isaac.ACCEPTVoteproof
 	deliver []*bbDelivery
 	expels  []base.SuffrageExpelOperation
+
+	// the suffrage of height 34 has one more member than the suffrage of the heights before (nil: no change)
+	newcomer base.LocalNode
+	suf34    base.Suffrage
+}
+
+// sufAt is the suffrage of a height: voteproofs and ballots are judged by the suffrage of their own height
+func (w *bbWorld) sufAt(h base.Height) base.Suffrage {
+	if w.suf34 != nil && h >= 34 {
+		return w.suf34
+	}
+
+	return w.c.Suf
 }
 
 func bbSFKey(sf base.BallotSignFact) string { return string(sf.HashBytes()) }
@@ -259,6 +274,46 @@ func bbBuild(r *simkit.Run) *bbWorld {
 		}
 	}
 
+	// the suffrage changes with block 33: a newcomer is a member from height 34 on. It votes for (34,0) like the
+	// others; and a ballot for (34,0) may carry an ACCEPT voteproof of height 33 that counts the newcomer's vote -
+	// well-formed, valid by the suffrage of the ballot's height, not by the suffrage of its own
+	if stages >= 4 && r.Chance(1, 3) {
+		w.newcomer = common.Local(80)
+
+		suf34, err := isaac.NewSuffrage(append(common.Nodes(c.Nodes), w.newcomer))
+		if err != nil {
+			panic(err)
+		}
+
+		w.suf34 = suf34
+		r.Probe("suffrage_changes_at_next_height")
+
+		if r.Chance(2, 3) {
+			add(-1, common.INITBallot(avp33, c.SignINIT(w.newcomer, nextFacts[pick()]), nil), "newcomer INIT h34r0")
+		}
+
+		if r.Chance(1, 2) {
+			sfs := []base.BallotSignFact{c.SignACCEPT(w.newcomer, acceptFacts[0])}
+
+			for i, nd := range c.Nodes {
+				if i > 0 || n == 1 || r.Chance(1, 2) { // with or without one of the members
+					sfs = append(sfs, c.SignACCEPT(nd, acceptFacts[0]))
+				}
+			}
+
+			hostile := c.ACCEPTVoteproof(p0, sfs, acceptFacts[0])
+			signer := w.newcomer
+
+			if r.Chance(1, 2) {
+				signer = c.Nodes[r.Choose(n)]
+			}
+
+			add(-1, common.INITBallot(hostile, c.SignINIT(signer, nextFacts[pick()]), nil), "INIT h34r0 carrying an ACCEPT h33 voteproof with the newcomer's vote")
+			w.deliver[len(w.deliver)-1].hostile = true
+			r.Probe("ballot_with_voteproof_valid_only_by_the_next_suffrage")
+		}
+	}
+
 	// strangers: nodes that are not in the suffrage vote too (their ballots are well-formed and pass the ingress check;
 	// only the suffrage tells them apart - which the box may learn after their ballots arrived)
 	for k := 0; k < r.Choose(3); k++ {
@@ -462,7 +517,7 @@ func (s *bbState) judge(vp base.Voteproof) {
 	}
 
 	// (2) only sign facts for that stage point, distinct nodes of the suffrage, delivered
-	suf := s.w.c.Suf
+	suf := s.w.sufAt(vp.Point().Height())
 	seen := map[string]bool{}
 
 	for _, sf := range vp.SignFacts() {
@@ -554,7 +609,8 @@ func bbRun(r *simkit.Run, c05 bool) {
 			return nil, false, nil
 		}
 
-		return w.c.Suf, true, nil
+		// the box asks by block height: the suffrage that votes on height H is the one block H-1 established
+		return w.sufAt(h + 1), true, nil
 	}
 
 	box := isaacstates.NewBallotbox(w.c.Nodes[0].Address(), func() base.Threshold { return w.c.Threshold }, getSuffrage)
@@ -620,7 +676,7 @@ func bbRun(r *simkit.Run, c05 bool) {
 					continue
 				}
 
-				if err != nil && !errors.Is(err, errSuf) {
+				if err != nil && !errors.Is(err, errSuf) && !d.hostile {
 					r.Fail("vote-error", "error", "Vote(%s): %v", d.desc, err)
 				}
 
@@ -815,7 +871,7 @@ func init() {
 		Run:         func(r *simkit.Run) { bbRun(r, false) },
 		Real:        []string{"isaacstates.Ballotbox (Vote, Count, SetLastPoint, StuckVoteproof paths via count, MissingNodes, Voted, ticker)", "voterecords", "isaac.IsValidVoteproofWithSuffrage", "base.IsValidVoteproof", "ballot/voteproof/expel types, secp256k1 signatures"},
 		Stub:        []string{"suffrage lookup (harness function that can answer not-found-yet or fail)", "ballots are signed by the harness with the remote nodes' keys and pass Ballot.IsValid before delivery, as launch does"},
-		Rule:        "each run draws a suffrage of 1-5 nodes, a threshold (67/75/100), 1-4 consecutive stage points (h33r0 INIT, h33r0 ACCEPT, h33r1 INIT after a draw, h34r0 INIT), honest and conflicting facts, nodes sending two ballots, ballots with expels and suffrage-confirm ballots over an expel voteproof, embedded voteproofs (majority and draw), duplicated deliveries in tape-chosen order by 1-4 concurrent voter tasks, a control task (Count, SetLastPoint, MissingNodes, Voted, sleeps, and the stuck resolver's step: MissingNodes, then StuckVoteproof with valid expels of all or of only some of the nodes named missing; the returned voteproof is judged like an emitted one), the box's ticker on the fake clock, and a suffrage lookup that is unknown for the first k calls or fails. Every voteproof received from Voteproof() is judged by the four clauses of the statement with an independent recount. distinct = event-log hash",
+		Rule:        "each run draws a suffrage of 1-5 nodes, a threshold (67/75/100), 1-4 consecutive stage points (h33r0 INIT, h33r0 ACCEPT, h33r1 INIT after a draw, h34r0 INIT), honest and conflicting facts, nodes sending two ballots, ballots with expels and suffrage-confirm ballots over an expel voteproof, embedded voteproofs (majority and draw), in a third of the four-point runs a suffrage that gains a member at height 34 (the box is asked by block height) and ballots for (34,0) carrying an ACCEPT voteproof of height 33 that counts the newcomer's vote, duplicated deliveries in tape-chosen order by 1-4 concurrent voter tasks, a control task (Count, SetLastPoint, MissingNodes, Voted, sleeps, and the stuck resolver's step: MissingNodes, then StuckVoteproof with valid expels of all or of only some of the nodes named missing; the returned voteproof is judged like an emitted one), the box's ticker on the fake clock, and a suffrage lookup that is unknown for the first k calls or fails. Every voteproof received from Voteproof() is judged by the four clauses of the statement with an independent recount. distinct = event-log hash",
 		Assumptions: []string{"the required vote count in the recount comes from base.Threshold.Threshold (subject of C02)", "ballots reach Vote only if Ballot.IsValid(networkID) passes, as in launch"},
 	})
 }
